@@ -1,5 +1,352 @@
-//! (c) end to end through the v1 engine (filled in below).
-use serde_json::json;
-pub fn run(_seed: u64, _n: u64) {
-    println!("{}", json!({"engine": "todo"}));
+//! (c) end to end through the v1 engine: `v1::invoke_receive` on a contract that performs `invoke`
+//! host calls (every one of them interrupts), `resume_receive` with seeded responses, with and without
+//! state changes during the interrupt (a re-entrant call of the same instance on the same mutable
+//! state, as the node does), so that `InstanceState::migrate` must invalidate entry handles exactly
+//! when the state changed.
+//!
+//! Oracles: (1) the contract's observations (the response pushed by `resume_receive`, reads through a
+//! handle obtained BEFORE the interrupt, reads through a fresh lookup, memory grown before the first
+//! interrupt) equal a reference computed by the harness; (2) running the scenario twice gives the
+//! same return value, logs, energy and final state; (3) the artifact reloaded from its serialisation
+//! (`output` -> `parse_artifact` -> owned) gives the same.
+use crate::ast::*;
+use concordium_contracts_common::{AccountAddress, Address, Amount, ChainMetadata, ContractAddress, OwnedEntrypointName, ReceiveName, Timestamp};
+use concordium_smart_contract_engine::{v0, v1, v1::trie, InterpreterEnergy};
+use concordium_wasm::{
+    artifact::{Artifact, CompiledFunction, OwnedArtifact},
+    output::Output,
+    utils::{instantiate, parse_artifact},
+    validate::ValidationConfig,
+};
+use hlib::{guarded, hex, Rng};
+use serde_json::{json, Value as J};
+use std::sync::Arc;
+
+type Art1 = Arc<Artifact<v1::ProcessedImports, CompiledFunction>>;
+type Ctx1 = v1::ReceiveContext<Vec<u8>>;
+type RR1 = v1::ReceiveResult<CompiledFunction, (), Ctx1>;
+
+#[derive(Clone, Debug)]
+struct Step {
+    /// the invoke is made inside a called function (one more frame on the function-frame stack)
+    nested: bool,
+    /// response: 0 = success without data, 1 = success with data, 2 = InsufficientAmount, 3 = NonExistentAccount
+    resp: u8,
+    /// the state is reported as updated on resume
+    upd: bool,
+    /// a re-entrant call writes this value to the entry during the interrupt (only with `upd`)
+    reentrant_write: Option<u32>,
+    /// after resuming, the contract replaces its stale handle by the fresh one
+    refresh: bool,
+    /// after resuming, the contract writes this value through the fresh handle
+    contract_write: Option<u32>,
+}
+
+const IMPORTS: [(&str, &[VT], Option<VT>); 6] = [
+    ("invoke", &[VT::I32, VT::I32, VT::I32], Some(VT::I64)),
+    ("state_create_entry", &[VT::I32, VT::I32], Some(VT::I64)),
+    ("state_lookup_entry", &[VT::I32, VT::I32], Some(VT::I64)),
+    ("state_entry_write", &[VT::I64, VT::I32, VT::I32, VT::I32], Some(VT::I32)),
+    ("state_entry_read", &[VT::I64, VT::I32, VT::I32, VT::I32], Some(VT::I32)),
+    ("write_output", &[VT::I32, VT::I32, VT::I32], Some(VT::I32)),
+];
+const INVOKE: u32 = 0;
+const CREATE: u32 = 1;
+const LOOKUP: u32 = 2;
+const EWRITE: u32 = 3;
+const EREAD: u32 = 4;
+const WOUT: u32 = 5;
+const NIMP: u32 = 6;
+
+// locals of `recv`: 0 = amount (param), 1 = e (i64), 2 = off (i32), 3 = r (i64), 4 = t (i32), 5 = e2 (i64)
+fn c32(v: u32) -> Op { Op::I32Const(v as i32) }
+fn out_word(b: &mut Vec<Op>, addr: u32, len: u32) {
+    // write_output(addr, len, off); off += len
+    b.extend([c32(addr), c32(len), Op::LocalGet(2), Op::Call(WOUT), Op::Plain(0x1a)]);
+    b.extend([Op::LocalGet(2), c32(len), Op::Plain(0x6a), Op::LocalSet(2)]);
+}
+
+fn build_contract(steps: &[Step]) -> Module {
+    let mut m = Module::default();
+    for (name, ps, r) in IMPORTS.iter() {
+        m.types.push(Sig { params: ps.to_vec(), result: *r });
+        m.imports.push(("concordium".into(), name.to_string(), (m.types.len() - 1) as u32));
+    }
+    m.types.push(Sig { params: vec![VT::I64], result: Some(VT::I32) }); // 6: entrypoints
+    m.types.push(Sig { params: vec![VT::I32], result: Some(VT::I64) }); // 7: helper
+    m.mem = Some((1, Some(4)));
+    m.data.push((0, b"k".to_vec()));
+    m.data.push((16, b"ABCD".to_vec()));
+    // transfer payload at 32..72: account address 32 bytes, amount 8 bytes
+    m.data.push((32, (0u8..40).collect()));
+    // helper (function 0): one more frame around the invoke; its argument is returned xor-ed in so that a
+    // lost frame or a misplaced return value is visible:  helper(x) = invoke(0,32,40) ^ (x as i64) ^ (x as i64)
+    m.funcs.push(Func {
+        ty: 7,
+        locals: vec![VT::I64],
+        body: vec![c32(0), c32(32), c32(40), Op::Call(INVOKE), Op::LocalSet(1), Op::LocalGet(1), Op::LocalGet(0), Op::Plain(0xad), Op::Plain(0x85),
+                   Op::LocalGet(0), Op::Plain(0xad), Op::Plain(0x85), Op::End],
+    });
+    // recv (function 1)
+    let mut b: Vec<Op> = vec![];
+    b.extend([c32(0), c32(1), Op::Call(CREATE), Op::LocalSet(1)]);
+    b.extend([Op::LocalGet(1), c32(16), c32(4), c32(0), Op::Call(EWRITE), Op::Plain(0x1a)]);
+    // grow the memory before the first interrupt and leave a mark in the new page
+    b.extend([c32(1), Op::Plain(0x40), Op::Plain(0x1a), c32(65536 + 8), c32(0x5a5a_5a5a), Op::Mem(0x36, 0, 2)]);
+    for (i, s) in steps.iter().enumerate() {
+        if s.nested {
+            b.extend([c32(1000 + i as u32), Op::Call(NIMP), Op::LocalSet(3)]);
+        } else {
+            b.extend([c32(0), c32(32), c32(40), Op::Call(INVOKE), Op::LocalSet(3)]);
+        }
+        b.extend([c32(200), Op::LocalGet(3), Op::Mem(0x37, 0, 3)]);
+        out_word(&mut b, 200, 8);
+        // read through the handle obtained before the interrupt
+        b.extend([c32(300), c32(0), Op::Mem(0x36, 0, 2)]);
+        b.extend([Op::LocalGet(1), c32(300), c32(4), c32(0), Op::Call(EREAD), Op::LocalSet(4)]);
+        b.extend([c32(208), Op::LocalGet(4), Op::Mem(0x36, 0, 2)]);
+        out_word(&mut b, 208, 4);
+        out_word(&mut b, 300, 4);
+        // fresh lookup
+        b.extend([c32(0), c32(1), Op::Call(LOOKUP), Op::LocalSet(5)]);
+        b.extend([c32(216), Op::LocalGet(5), Op::Mem(0x37, 0, 3)]);
+        out_word(&mut b, 216, 8);
+        b.extend([c32(300), c32(0), Op::Mem(0x36, 0, 2)]);
+        b.extend([Op::LocalGet(5), c32(300), c32(4), c32(0), Op::Call(EREAD), Op::LocalSet(4)]);
+        b.extend([c32(208), Op::LocalGet(4), Op::Mem(0x36, 0, 2)]);
+        out_word(&mut b, 208, 4);
+        out_word(&mut b, 300, 4);
+        if s.refresh {
+            b.extend([Op::LocalGet(5), Op::LocalSet(1)]);
+        }
+        if let Some(w) = s.contract_write {
+            b.extend([c32(400), c32(w), Op::Mem(0x36, 0, 2)]);
+            b.extend([Op::LocalGet(5), c32(400), c32(4), c32(0), Op::Call(EWRITE), Op::Plain(0x1a)]);
+        }
+    }
+    out_word(&mut b, 65536 + 8, 4);
+    b.extend([c32(0), Op::End]);
+    m.funcs.push(Func { ty: 6, locals: vec![VT::I64, VT::I32, VT::I64, VT::I32, VT::I64], body: b });
+    // set (function 2): the re-entrant call: k := low 4 bytes of the amount
+    let s: Vec<Op> = vec![
+        c32(0), c32(1), Op::Call(LOOKUP), Op::LocalSet(1),
+        c32(400), Op::LocalGet(0), Op::Mem(0x37, 0, 3),
+        Op::LocalGet(1), c32(400), c32(4), c32(0), Op::Call(EWRITE), Op::Plain(0x1a),
+        c32(0), Op::End,
+    ];
+    m.funcs.push(Func { ty: 6, locals: vec![VT::I64], body: s });
+    m.exports = vec![("c.recv".into(), 1), ("c.set".into(), 2)];
+    m
+}
+
+fn addr(base: u8) -> AccountAddress {
+    let mut a = [0u8; 32];
+    for (i, x) in a.iter_mut().enumerate() { *x = base + i as u8; }
+    AccountAddress(a)
+}
+fn ctx(entry: &str) -> Ctx1 {
+    v1::ReceiveContext {
+        common: v0::ReceiveContext {
+            metadata: ChainMetadata { slot_time: Timestamp::from_timestamp_millis(0x0102030405060708) },
+            invoker: addr(0x30),
+            self_address: ContractAddress { index: 7, subindex: 0 },
+            self_balance: Amount::from_micro_ccd(1_000_000),
+            sender: Address::Account(addr(0x70)),
+            owner: addr(0x50),
+            sender_policies: vec![],
+        },
+        entrypoint: OwnedEntrypointName::new_unchecked(entry.into()),
+    }
+}
+fn new_loader() -> trie::Loader<Vec<u8>> { trie::Loader { inner: Vec::<u8>::new() } }
+
+fn start(art: &Art1, ms: &mut trie::MutableState, name: &str, entry: &str, amount: u64, energy: u64) -> Result<RR1, String> {
+    let mut loader = new_loader();
+    let inner = ms.get_inner(&mut loader);
+    let st = v1::InstanceState::new(loader, inner);
+    v1::invoke_receive::<_, CompiledFunction, CompiledFunction, Art1, Ctx1, Ctx1, ()>(
+        art.clone(),
+        ctx(entry),
+        v1::ReceiveInvocation { amount: Amount::from_micro_ccd(amount), receive_name: ReceiveName::new_unchecked(name), parameter: &[], energy: InterpreterEnergy::new(energy) },
+        st,
+        v1::ReceiveParams::new_p7(),
+    )
+    .map_err(|e| e.to_string())
+}
+
+#[derive(Debug, PartialEq, Clone)]
+struct Obs {
+    out: String,
+    rv: Vec<u8>,
+    rem: u64,
+    state: Vec<(Vec<u8>, Vec<u8>)>,
+    interrupts: usize,
+    changed: Vec<bool>,
+}
+
+fn run_scenario(art: &Art1, steps: &[Step]) -> Obs {
+    let mut o = Obs { out: "PANIC".into(), rv: vec![], rem: 0, state: vec![], interrupts: 0, changed: vec![] };
+    let r = guarded(|| {
+        let mut ms = trie::PersistentState::from_iterator(std::iter::empty::<(&[u8], Vec<u8>)>()).thaw();
+        let mut step: Result<RR1, String> = start(art, &mut ms, "c.recv", "recv", 0, 2_000_000);
+        let mut i = 0usize;
+        loop {
+            match step {
+                Err(m) => return ("invalid ".to_string() + &m, vec![], 0, vec![], i, vec![]),
+                Ok(rr) => match rr {
+                    v1::ReceiveResult::OutOfEnergy { .. } => return ("ooe".into(), vec![], 0, vec![], i, vec![]),
+                    v1::ReceiveResult::Trap { error, remaining_energy, .. } => return (format!("trap {:#}", error), vec![], remaining_energy.energy, vec![], i, vec![]),
+                    v1::ReceiveResult::Reject { reason, return_value, remaining_energy, .. } => return (format!("reject {}", reason), return_value, remaining_energy.energy, vec![], i, vec![]),
+                    v1::ReceiveResult::Success { return_value, remaining_energy, state_changed, .. } => {
+                        let mut loader = new_loader();
+                        let ps = ms.freeze(&mut loader, &mut trie::EmptyCollector);
+                        let mut kv: Vec<(Vec<u8>, Vec<u8>)> = ps.into_iterator(&mut loader).collect();
+                        kv.sort();
+                        return ("success".into(), return_value, remaining_energy.energy, kv, i, vec![state_changed]);
+                    }
+                    v1::ReceiveResult::Interrupt { remaining_energy, config, .. } => {
+                        if i >= steps.len() { return ("unexpected-interrupt".into(), vec![], 0, vec![], i, vec![]); }
+                        let s = &steps[i];
+                        i += 1;
+                        if let (true, Some(w)) = (s.upd, s.reentrant_write) {
+                            // re-entrancy: the same instance is invoked again on the same mutable state
+                            match start(art, &mut ms, "c.set", "set", w as u64, 500_000) {
+                                Ok(v1::ReceiveResult::Success { .. }) => {}
+                                other => return (format!("reentrant call failed: {:?}", other.map(|_| "non-success")), vec![], 0, vec![], i, vec![]),
+                            }
+                        }
+                        let resp = match s.resp {
+                            0 => v1::InvokeResponse::Success { new_balance: Amount::from_micro_ccd(999), data: None },
+                            1 => v1::InvokeResponse::Success { new_balance: Amount::from_micro_ccd(998), data: Some(vec![1, 2, 3]) },
+                            2 => v1::InvokeResponse::Failure { kind: v1::InvokeFailure::InsufficientAmount },
+                            _ => v1::InvokeResponse::Failure { kind: v1::InvokeFailure::NonExistentAccount },
+                        };
+                        step = v1::resume_receive::<_, ()>(config, resp, remaining_energy, &mut ms, s.upd, new_loader()).map_err(|e| e.to_string());
+                    }
+                },
+            }
+        }
+    });
+    match r {
+        Err(p) => { o.out = format!("PANIC {}", p); o }
+        Ok((out, rv, rem, state, interrupts, changed)) => Obs { out, rv, rem, state, interrupts, changed },
+    }
+}
+
+/// what the contract must observe
+fn reference(steps: &[Step]) -> (Vec<u8>, Vec<u8>) {
+    let mut cur: Vec<u8> = b"ABCD".to_vec();
+    let mut stale_valid = true;
+    let mut nparams: u64 = 1;
+    let mut rv: Vec<u8> = vec![];
+    // positions of the (unpredicted) raw lookup results are filled with 0xEE and masked in the comparison
+    for s in steps {
+        // failures do not change the state (and the harness never reports `upd` with them)
+        if let (true, Some(w)) = (s.upd, s.reentrant_write) { cur = w.to_le_bytes().to_vec(); }
+        let tag: u64 = if s.upd { 0b1000_0000_0000_0000_0000_0000 } else { 0 };
+        let r: u64 = match s.resp {
+            0 => tag << 40,
+            1 => { let l = nparams; nparams += 1; (l | tag) << 40 }
+            2 => 0x01_0000_0000,
+            _ => 0x02_0000_0000,
+        };
+        if s.upd { stale_valid = false; }
+        rv.extend(r.to_le_bytes());
+        if stale_valid { rv.extend(4u32.to_le_bytes()); rv.extend(&cur); } else { rv.extend(u32::MAX.to_le_bytes()); rv.extend([0u8; 4]); }
+        rv.extend([0xEE; 8]);
+        rv.extend(4u32.to_le_bytes());
+        rv.extend(&cur);
+        if s.refresh { stale_valid = true; }
+        if let Some(w) = s.contract_write { cur = w.to_le_bytes().to_vec(); }
+    }
+    rv.extend(0x5a5a_5a5au32.to_le_bytes());
+    (rv, cur)
+}
+
+fn masked_eq(actual: &[u8], expected: &[u8]) -> bool {
+    actual.len() == expected.len() && actual.iter().zip(expected.iter()).enumerate().all(|(i, (a, e))| {
+        let in_lookup = { let j = i % 32; (16..24).contains(&j) && i + 4 < expected.len() };
+        in_lookup || a == e
+    })
+}
+
+pub fn run(seed: u64, n: u64) {
+    let mut runs = 0u64;
+    let mut interrupts = 0u64;
+    let mut kinds = [0u64; 6];
+    for ci in 0..n {
+        let mut r = Rng::new(seed.wrapping_mul(9_000_011).wrapping_add(ci));
+        let k = r.range(1, 4) as usize;
+        let steps: Vec<Step> = (0..k)
+            .map(|_| {
+                let resp = *r.pick(&[0u8, 0, 1, 1, 2, 3]);
+                let upd = resp < 2 && r.chance(1, 2);
+                Step {
+                    nested: r.chance(1, 2),
+                    resp,
+                    upd,
+                    reentrant_write: if upd && r.chance(3, 4) { Some(r.next() as u32) } else { None },
+                    refresh: r.chance(1, 3),
+                    contract_write: if r.chance(1, 3) { Some(r.next() as u32) } else { None },
+                }
+            })
+            .collect();
+        for s in &steps {
+            kinds[if s.upd { 0 } else { 1 }] += 1;
+            if s.nested { kinds[2] += 1 }
+            if s.reentrant_write.is_some() { kinds[3] += 1 }
+            if s.refresh { kinds[4] += 1 }
+            if s.resp >= 2 { kinds[5] += 1 }
+        }
+        let case = json!({"index": ci, "steps": steps.iter().map(|s| format!("{:?}", s)).collect::<Vec<_>>()});
+        let mut viol: Vec<J> = vec![];
+        let bytes = build_contract(&steps).encode();
+        let imp = v1::ConcordiumAllowedImports { support_upgrade: true, enable_debug: false };
+        let fresh = match guarded(|| instantiate::<v1::ProcessedImports, _>(ValidationConfig::V1, &imp, &bytes)) {
+            Ok(Ok(m)) => m.artifact,
+            Ok(Err(e)) => { println!("{}", json!({"case": case, "viol": [{"kind": "engine-contract-rejected", "msg": format!("{:#}", e)}]})); continue; }
+            Err(p) => { println!("{}", json!({"case": case, "viol": [{"kind": "instantiate-panic", "msg": p}]})); continue; }
+        };
+        let mut abytes = vec![];
+        if fresh.output(&mut abytes).is_err() { viol.push(json!({"kind": "output-failed"})); }
+        let reloaded: Option<Art1> = match guarded(|| parse_artifact::<v1::ProcessedImports>(&abytes).map(|b| Arc::new(OwnedArtifact::from(b)))) {
+            Ok(Ok(a)) => Some(a),
+            Ok(Err(e)) => { viol.push(json!({"kind": "parse-rejects-own-output", "msg": e.to_string()})); None }
+            Err(p) => { viol.push(json!({"kind": "parse-panic", "msg": p})); None }
+        };
+        if let Some(a) = &reloaded {
+            let mut again = vec![];
+            let _ = a.output(&mut again);
+            if again != abytes { viol.push(json!({"kind": "reserialise-owned-differs(engine imports)"})); }
+        }
+        let fresh: Art1 = Arc::new(fresh);
+        let a = run_scenario(&fresh, &steps);
+        runs += 1;
+        interrupts += a.interrupts as u64;
+        let (exp_rv, exp_k) = reference(&steps);
+        if a.out != "success" || a.interrupts != steps.len() {
+            viol.push(json!({"kind": "engine-scenario-did-not-complete", "outcome": a.out, "interrupts": a.interrupts}));
+        } else {
+            if !masked_eq(&a.rv, &exp_rv) {
+                viol.push(json!({"kind": "resumed-observations-differ-from-reference", "actual": hex(&a.rv), "expected(lookup results masked EE)": hex(&exp_rv)}));
+            }
+            let k_final = a.state.iter().find(|(k, _)| k == b"k").map(|(_, v)| v.clone());
+            if k_final.as_deref() != Some(&exp_k[..]) {
+                viol.push(json!({"kind": "final-state-differs-from-reference", "actual": k_final.map(|v| hex(&v)), "expected": hex(&exp_k)}));
+            }
+        }
+        let b = run_scenario(&fresh, &steps);
+        runs += 1;
+        if a != b { viol.push(json!({"kind": "engine-nondeterministic", "first": format!("{:?}", a).chars().take(300).collect::<String>(), "second": format!("{:?}", b).chars().take(300).collect::<String>()})); }
+        if let Some(ra) = &reloaded {
+            let c = run_scenario(ra, &steps);
+            runs += 1;
+            if a != c { viol.push(json!({"kind": "engine-reloaded-differs", "fresh": format!("{:?}", a).chars().take(300).collect::<String>(), "reloaded": format!("{:?}", c).chars().take(300).collect::<String>()})); }
+        }
+        if !viol.is_empty() {
+            println!("{}", json!({"case": case, "viol": viol}));
+        }
+    }
+    println!("{}", json!({"engine_stats": {"scenarios": n, "runs": runs, "interrupts": interrupts, "steps_state_updated": kinds[0], "steps_state_unchanged": kinds[1],
+             "nested_invokes": kinds[2], "reentrant_writes": kinds[3], "handle_refreshes": kinds[4], "failure_responses": kinds[5]}}));
 }
